@@ -310,3 +310,38 @@ func (p *Program) SrcFuncs() []*ssa.Function {
 	}
 	return out
 }
+
+// wrappedFieldNames: the names of the single string field of the repository's wrapper
+// struct types (the safe types), computed from the loaded packages.
+var wrappedFieldCache map[*Program]map[string]bool
+
+func (p *Program) isWrappedFieldName(name string) bool {
+	if wrappedFieldCache == nil {
+		wrappedFieldCache = map[*Program]map[string]bool{}
+	}
+	m, ok := wrappedFieldCache[p]
+	if !ok {
+		m = map[string]bool{}
+		for _, pk := range p.Pkgs {
+			if pk.Types == nil {
+				continue
+			}
+			sc := pk.Types.Scope()
+			for _, n := range sc.Names() {
+				tn, ok := sc.Lookup(n).(*types.TypeName)
+				if !ok {
+					continue
+				}
+				st, ok := tn.Type().Underlying().(*types.Struct)
+				if !ok || st.NumFields() != 1 {
+					continue
+				}
+				if b, ok := st.Field(0).Type().Underlying().(*types.Basic); ok && b.Kind() == types.String {
+					m[st.Field(0).Name()] = true
+				}
+			}
+		}
+		wrappedFieldCache[p] = m
+	}
+	return m[name]
+}
